@@ -8,7 +8,8 @@ EXTENDS Naturals, Sequences, FiniteSets, TLC, SequencesExt, FiniteSetsExt
 CONSTANTS Types, Keys, Vals, MaxLen, Programs, FlushDeviation, CapDeviation
 (* program: [steps : Seq([type, f, all]), part, negs : Seq([type, f]), maxRuns, strat, maxK, maxEnum]
    negation clause filter f in {"none","ge1","eqfirst"}; "eqfirst": x = (first captured event).x
-   f in {"none","ge1","eqprev","gtself"}; "gtself" only on an `all` step: x > previous-B.x (postponed)
+   f in {"none","ge1","eqprev","gtself","gtself_leprev"}; "gtself" only on an `all` step: x > previous-B.x (postponed);
+   "gtself_leprev": x > previous-B.x and x <= (event of the step before).x - one conjunction, postponed as a whole
    strat in {"drop","oldest","least"}                                                        *)
 
 EventUniverse == [type : Types, key : Keys, x : Vals]
@@ -35,23 +36,27 @@ Eager(p, k, e, cap, s2) ==
        [] st.f = "ge1"    -> e.x >= 1
        [] st.f = "eqprev" -> k > 1 /\ e.x = s2[cap[k-1]].x
        [] st.f = "gtself" -> TRUE                       \* postponed to enumeration
+       [] st.f = "gtself_leprev" -> TRUE                \* x > previous-B.x and x <= (previous step).x : the whole conjunction is postponed
 
 IsK(p, k) == k >= 1 /\ k <= NSteps(p) /\ p.steps[k].all
-Postponed(p, k) == IsK(p, k) /\ p.steps[k].f = "gtself"
+Postponed(p, k) == IsK(p, k) /\ p.steps[k].f \in {"gtself", "gtself_leprev"}
+\* the postponed predicate on a consecutive pair (x1 = earlier B, x2 = later B); xa = x of the event captured by the step before the Kleene step
+PairOK(f, x1, x2, xa) == IF f = "gtself_leprev" THEN x2 > x1 /\ x2 <= xa ELSE x2 > x1
 
 \* valid Kleene combinations of kept events kl under the postponed predicate (consecutive pairs)
-Combos(kl, s2, postponed) ==
+CombosF(kl, s2, postponed, f, xa) ==
   IF ~postponed THEN { kl }
   ELSE { c \in SUBSET ToSet(kl) :
            /\ c # {}
-           /\ LET sq == SetToSortSeq(c, <) IN \A i \in 1..(Len(sq)-1) : s2[sq[i+1]].x > s2[sq[i]].x }
+           /\ LET sq == SetToSortSeq(c, <) IN \A i \in 1..(Len(sq)-1) : PairOK(f, s2[sq[i]].x, s2[sq[i+1]].x, xa) }
+Combos(kl, s2, postponed) == CombosF(kl, s2, postponed, "gtself", 0)
 
 \* matches produced when run r completes at step NSteps (cap complete).  A match = [cap, kl]
 \* where for postponed predicates kl is the chosen combination; otherwise all kept events.
 Complete(p, r, s2) ==
   LET kstep == IF \E k \in 1..NSteps(p) : IsK(p, k) THEN CHOOSE k \in 1..NSteps(p) : IsK(p, k) ELSE 0 IN
   IF kstep # 0 /\ Postponed(p, kstep)
-    THEN { [cap |-> [r.cap EXCEPT ![kstep] = Max(c)], kl |-> c] : c \in Combos(r.kl, s2, TRUE) }   \* the alias shows the combination's last event
+    THEN { [cap |-> [r.cap EXCEPT ![kstep] = Max(c)], kl |-> c] : c \in CombosF(r.kl, s2, TRUE, p.steps[kstep].f, s2[r.cap[kstep - 1]].x) }   \* the alias shows the combination's last event
     ELSE { [cap |-> r.cap, kl |-> ToSet(r.kl)] }
 
 \* result of advancing one run with event e at index n:
@@ -156,8 +161,8 @@ GenuineS(s, m) ==
                      /\ PartKey(prog, s[j]) = PartKey(prog, s[cap[1]])
                      /\ cap[ks-1] < j /\ j <= cap[ks]
                      /\ (prog.steps[ks].f = "ge1" => s[j].x >= 1)
-  /\ (ks # 0 /\ m.kl # {} /\ prog.steps[ks].f = "gtself" =>
-        LET sq == SetToSortSeq(m.kl, <) IN \A i \in 1..(Len(sq)-1) : s[sq[i+1]].x > s[sq[i]].x)
+  /\ (ks # 0 /\ m.kl # {} /\ prog.steps[ks].f \in {"gtself", "gtself_leprev"} =>
+        LET sq == SetToSortSeq(m.kl, <) IN \A i \in 1..(Len(sq)-1) : PairOK(prog.steps[ks].f, s[sq[i]].x, s[sq[i+1]].x, s[cap[ks-1]].x))
   /\ NoNegBetweenS(s, cap[1], cap[Len(cap)])
 Genuine(m) == GenuineS(stream, m)
 AllMatches == UNION { out[i] : i \in 1..Len(out) }
@@ -194,7 +199,7 @@ KeptBs(s, p) ==   \* first maxK events of the Kleene type that satisfy the eager
       bs == { j \in 2..Len(s) : Eager(p, ks, s[j], <<1>>, s) }
       sq == SetToSortSeq(bs, <)
   IN SubSeq(sq, 1, IF Len(sq) < p.maxK THEN Len(sq) ELSE p.maxK)
-ValidCombos(s, p) == IF KeptBs(s, p) = <<>> THEN {} ELSE IF Postponed(p, KStep(p)) THEN Combos(KeptBs(s, p), s, TRUE) ELSE { ToSet(KeptBs(s, p)) }
+ValidCombos(s, p) == IF KeptBs(s, p) = <<>> THEN {} ELSE IF Postponed(p, KStep(p)) THEN CombosF(KeptBs(s, p), s, TRUE, p.steps[KStep(p)].f, s[1].x) ELSE { ToSet(KeptBs(s, p)) }
 \* shape A B^n C with a 3-step program whose middle step is `all`, no negation, no partition cut
 C03Shape(s, p) == /\ NSteps(p) = 3 /\ KStep(p) = 2 /\ p.negs = <<>> /\ p.steps[1].f = "none" /\ p.steps[3].f = "none"
                   /\ Len(s) >= 3 /\ s[1].type = p.steps[1].type /\ s[Len(s)].type = p.steps[3].type
